@@ -11,3 +11,9 @@ pub mod builders {
 pub mod types {
     pub use imap_proto::types::*;
 }
+
+#[cfg(feature = "djc_tokio_imap_verif")]
+pub mod verif {
+    pub use crate::client::{IdGenerator, ResponseStream};
+    pub use crate::codec::ImapCodec;
+}
